@@ -1350,3 +1350,91 @@ Print Assumptions C08_std_contain_file_drive_agree.
 Example C08_std_contain_file_drive_agree_inhabited :
   std_fs_drive_agree_case (B "file:///tmp/d?q") [(B "C|/y", B "file:///C:/y"); (B "d|", B "file:///d:"); (B " C|\z?k#g", B "file:///C:/z?k#g")] = true.
 Proof. exact std_contain_file_drive_agree_inhabited. Qed.
+
+From RU Require Import Proofs.C01_EqFileBase2 Proofs.C01_EqFileRel2 Proofs.C08_StdFileClasses.
+(* 11.13 ALL of C01's classes for a file base record at once (in_class_file_base_any = rel_path, rel_one, rel_one_carry,
+   rel_drive, rel2, same_path, same_one, same_one_carry, same_drive): for a related file base pair with spec_base_ok and a
+   reference in any of the classes that meets the Standard-side premise, the Standard succeeds keeping the front and the
+   crate's join answers Overflow or a related record, a full_base pair again, with the base's front API strings.  The
+   premise leaves the four scheme-less classes rel_path / rel_one / rel_one_carry / rel_drive (rel2 has two leading
+   slashes, the same_* classes a scheme: see 11.14 for those), so no host hypothesis is needed *)
+Theorem C08_std_contain_file_classes_agree : forall dbg hp hpo hd shp shs, shs SEmpty = [] -> forall b sb input,
+  usv_list input -> related dbg shs b sb -> spec_base_ok sb = true ->
+  in_class_file_base_any sb input = true -> std_contain_pre sb (spec_clean input) = true ->
+  exists su, spec_basic_url_parse shp input (Some sb) = BDone su /\ spec_same_front sb su /\ spec_base_ok su = true
+    /\ ((join dbg hp hpo hd b input = PErr Overflow /\ U32_MAX_P < nlen (get_href shs su))
+        \/ exists u', join dbg hp hpo hd b input = POk u' /\ related dbg shs u' su /\ full_base dbg shs u' su
+                      /\ option_map api_front (api_of_model dbg u') = option_map api_front (api_of_model dbg b)).
+Proof. exact std_contain_file_classes_agree. Qed.
+Print Assumptions C08_std_contain_file_classes_agree.
+(* non-vacuity: one line per class (both parsers on base and reference; flag = the reference meets the premise of 11.11;
+   both sides succeed with the serialization shown; with the flag set the host text is the base's) *)
+Example C08_std_contain_file_classes_agree_inhabited :
+  std_fs_classes_case in_class_file_rel_path (B "file://h.x/tmp/d?q") [(B "e/f", true, B "file://h.x/tmp/e/f"); (B "../g?k#z", true, B "file://h.x/g?k#z")] = true
+  /\ std_fs_classes_case in_class_file_rel_one (B "file://h.x/tmp/d?q") [(B "/p", true, B "file://h.x/p"); (B "\p", true, B "file://h.x/p")] = true
+  /\ std_fs_classes_case in_class_file_rel_one_carry (B "file:///C:/a/b") [(B "/p", true, B "file:///C:/p")] = true
+  /\ std_fs_classes_case in_class_file_rel_drive (B "file:///tmp/d?q") [(B "C|/y", true, B "file:///C:/y")] = true
+  /\ std_fs_classes_case in_class_file_rel2 (B "file://h.x/tmp/d?q") [(B "//g.y/z", false, B "file://g.y/z")] = true
+  /\ std_fs_classes_case in_class_file_same_path (B "file://h.x/tmp/d?q") [(B "file:e/f", false, B "file://h.x/tmp/e/f")] = true
+  /\ std_fs_classes_case in_class_file_same_one (B "file://h.x/tmp/d?q") [(B "file:/p", false, B "file://h.x/p")] = true
+  /\ std_fs_classes_case in_class_file_same_one_carry (B "file:///C:/a/b") [(B "file:/p", false, B "file:///C:/p")] = true
+  /\ std_fs_classes_case in_class_file_same_drive (B "file:///tmp/d?q") [(B "file:C|/y", false, B "file:///C:/y")] = true.
+Proof. exact std_contain_file_classes_agree_inhabited. Qed.
+
+(* 11.14 the "file:"-prefixed references against a file base ("file:x", "file:/x", "file:C|/y": they have a scheme, so
+   the premise of 11.8 excludes them), Standard side: the text behind "file:" starts with a Windows drive letter, or has
+   exactly one leading '/' or '\', or is path-relative with the last segment of the base path not a normalized drive
+   letter (std_file_same_pre): the Standard does NOT treat the reference as absolute - it succeeds and keeps scheme,
+   (empty) credentials, host, port of the base *)
+Theorem C08_std_contain_file_same : forall shp input sb, spec_valid sb -> has_opaque_path sb = false ->
+  list_eqb (su_scheme sb) str_file = true -> std_file_same_pre sb (spec_clean input) = true ->
+  exists su, spec_basic_url_parse shp input (Some sb) = BDone su /\ spec_same_front sb su.
+Proof. exact std_contain_file_same. Qed.
+Print Assumptions C08_std_contain_file_same.
+
+(* 11.15 transfer without the premise of 11.8: for ANY related base pair and ANY reference on which the Standard succeeds
+   keeping the front and the model's answer agrees with the Standard's (agree_good), the crate's join answers Overflow or
+   a related record with the base's front API strings *)
+Theorem C08_std_front_transfer : forall dbg hp hpo hd shp shs b sb su input, related dbg shs b sb ->
+  spec_basic_url_parse shp input (Some sb) = BDone su -> spec_same_front sb su ->
+  agree_good dbg shs (join dbg hp hpo hd b input) (spec_basic_url_parse shp input (Some sb)) ->
+  spec_base_ok su = true
+  /\ ((join dbg hp hpo hd b input = PErr Overflow /\ U32_MAX_P < nlen (get_href shs su))
+      \/ exists u', join dbg hp hpo hd b input = POk u' /\ related dbg shs u' su
+                    /\ option_map api_front (api_of_model dbg u') = option_map api_front (api_of_model dbg b)).
+Proof. exact std_front_transfer. Qed.
+Print Assumptions C08_std_front_transfer.
+
+(* 11.16 C01's four "file:"-prefixed classes (in_class_file_same_any = same_path, same_one, same_one_carry, same_drive) with
+   the crate: the Standard succeeds keeping the front and the crate's join answers Overflow or a related record, a
+   full_base pair again, with the base's front API strings - the crate does not treat "file:x" / "file:/x" against a
+   file base as absolute either *)
+Theorem C08_std_contain_file_same_classes_agree : forall dbg hp hpo hd shp shs, shs SEmpty = [] -> forall b sb input,
+  usv_list input -> related dbg shs b sb -> spec_base_ok sb = true -> in_class_file_same_any sb input = true ->
+  exists su, spec_basic_url_parse shp input (Some sb) = BDone su /\ spec_same_front sb su /\ spec_base_ok su = true
+    /\ ((join dbg hp hpo hd b input = PErr Overflow /\ U32_MAX_P < nlen (get_href shs su))
+        \/ exists u', join dbg hp hpo hd b input = POk u' /\ related dbg shs u' su /\ full_base dbg shs u' su
+                      /\ option_map api_front (api_of_model dbg u') = option_map api_front (api_of_model dbg b)).
+Proof. exact std_contain_file_same_classes_agree. Qed.
+Print Assumptions C08_std_contain_file_same_classes_agree.
+(* non-vacuity of 11.14 / 11.16: Standard side against file://h.x/tmp/d?q: "file:x", "file:/x", "file:\x", "file:C|/y",
+   "FILE:../e?k#g" and against file:///C:/a/b "file:/p" (drive letter carried), "file:x": premise met (and the premise of
+   11.8 not), success, scheme / host / port kept, href shown; with the crate: references of the four classes, both
+   sides succeed, host text kept, same serialization *)
+Example C08_std_contain_file_same_inhabited :
+  std_fs_same_case (B "file://h.x/tmp/d?q") [(B "file:x", B "file://h.x/tmp/x"); (B "file:/x", B "file://h.x/x");
+      (B "file:\x", B "file://h.x/x"); (B "file:C|/y", B "file://h.x/C:/y"); (B "FILE:../e?k#g", B "file://h.x/e?k#g")] = true
+  /\ std_fs_same_case (B "file:///C:/a/b") [(B "file:/p", B "file:///C:/p"); (B "file:x", B "file:///C:/a/x")] = true
+  /\ std_fs_same_agree_case (B "file://h.x/tmp/d?q") [(B "file:x", B "file://h.x/tmp/x"); (B "file:/x", B "file://h.x/x");
+      (B " file:\x?k#g", B "file://h.x/x?k#g")] = true
+  /\ std_fs_same_agree_case (B "file:///C:/a/b") [(B "file:/p", B "file:///C:/p")] = true
+  /\ std_fs_same_agree_case (B "file:///tmp/d?q") [(B "file:C|/y", B "file:///C:/y")] = true.
+Proof. exact std_contain_file_same_inhabited. Qed.
+
+(* 11.17 where parser.rs leaves 11.14 (the drive-letter branch of parse_file once more, F-C01-1 / F-C08-1): "file:C|/y"
+   against file://h.x/tmp/d meets std_file_same_pre; the Standard keeps the host (file://h.x/C:/y), the model of Url::join
+   drops it (file:///C:/y) *)
+Theorem C08_std_file_same_drive_divergence :
+  std_file_same_diverge_case (B "file://h.x/tmp/d") (B "file:C|/y") (B "file://h.x/C:/y") (B "file:///C:/y") = true.
+Proof. exact std_file_same_drive_divergence. Qed.
+Print Assumptions C08_std_file_same_drive_divergence.
